@@ -248,7 +248,10 @@ func (g *Group) scanStruct(realval reflect.Value, sfield *reflect.StructField, h
 				return err
 			}
 
-			if len(g.options)+len(g.groups) != flagCountBefore {
+			// Keep the (possibly newly allocated) struct when it declares
+			// options or groups, or when it is a command: its options live
+			// in the command and are not counted in this group
+			if len(g.options)+len(g.groups) != flagCountBefore || mtag.Get("command") != "" {
 				realval.Field(i).Set(fld)
 			}
 		}
